@@ -21,7 +21,7 @@ for d in sorted(glob.glob("/verif/seeded/C*-*")):
     meta = {
         "id": name,
         "property": name.split("-")[0],
-        "round": 2 if "-r2-" in name else 1,
+        "round": int(re.search(r"-r(\d+)-", name).group(1)) if re.search(r"-r(\d+)-", name) else 1,
         "written_by": "independent sub-agent that was given only the text of the property and a scratch worktree",
         "summary": agent.get("summary"),
         "needs_to_manifest": agent.get("needs"),
